@@ -16,6 +16,7 @@ import (
 
 	"github.com/IrineSistiana/mosdns/v5/pkg/upstream"
 	"github.com/IrineSistiana/mosdns/v5/pkg/utils"
+	"github.com/miekg/dns"
 	"pgregory.net/rapid"
 
 	"verif/harness/hx"
@@ -177,6 +178,51 @@ func bindSink(host string, port int) (*sink, error) {
 
 var setupErr error
 
+// bootstrap server: answers every A query with the address registered for the name
+var (
+	bootOnce sync.Once
+	bootConn *net.UDPConn
+	bootMu   sync.Mutex
+	bootMap  = map[string]net.IP{}
+)
+
+func bootAddr() string {
+	bootOnce.Do(func() {
+		c, err := net.ListenUDP("udp", &net.UDPAddr{IP: net.IPv4(127, 0, 0, 1)})
+		if err != nil {
+			return
+		}
+		bootConn = c
+		go func() {
+			buf := make([]byte, 4096)
+			for {
+				n, addr, err := c.ReadFromUDP(buf)
+				if err != nil {
+					return
+				}
+				q := new(dns.Msg)
+				if q.Unpack(buf[:n]) != nil || len(q.Question) != 1 {
+					continue
+				}
+				r := new(dns.Msg)
+				r.SetReply(q)
+				bootMu.Lock()
+				ip := bootMap[strings.ToLower(q.Question[0].Name)]
+				bootMu.Unlock()
+				if ip != nil && q.Question[0].Qtype == dns.TypeA {
+					r.Answer = []dns.RR{&dns.A{Hdr: dns.RR_Header{Name: q.Question[0].Name, Rrtype: dns.TypeA, Class: dns.ClassINET, Ttl: 60}, A: ip.To4()}}
+				}
+				w, _ := r.Pack()
+				c.WriteToUDP(w, addr)
+			}
+		}()
+	})
+	if bootConn == nil {
+		return ""
+	}
+	return bootConn.LocalAddr().String()
+}
+
 // ---------------------------------------------------------------- generator
 
 type Case struct {
@@ -192,6 +238,7 @@ type Case struct {
 	SinkDefaultPort bool `json:"sink_default_port"`
 	ViaDial         bool `json:"via_dial"`  // the URL names something else, dial_addr points at the sink
 	OmitPort        bool `json:"omit_port"` // leave the port out where the scheme default applies
+	Bootstrap       bool `json:"bootstrap"` // hostname resolved through a (harness) bootstrap server; destination = a TCP listener bound for the case
 }
 
 var loopHosts = []string{"127.0.0.1", "127.0.0.2", "127.1.2.15", "::1"}
@@ -240,7 +287,11 @@ func genCase(t *rapid.T) Case {
 	case "name":
 		c.Host = names[rapid.IntRange(0, len(names)-1).Draw(t, "name")]
 	}
-	switch rapid.IntRange(0, 6).Draw(t, "dial") {
+	dialKind := rapid.IntRange(0, 6).Draw(t, "dial")
+	if c.HostKind == "name" && rapid.Bool().Draw(t, "noDialForName") {
+		dialKind = 6 // no dial_addr: the name is resolved (bootstrap) or handed to the proxy
+	}
+	switch dialKind {
 	case 0:
 		c.DialHost = v4forms[rapid.IntRange(0, len(v4forms)-1).Draw(t, "d4")]
 		c.DialAddr = c.DialHost
@@ -258,6 +309,11 @@ func genCase(t *rapid.T) Case {
 	}
 	if c.Scheme == "https" {
 		c.Path = rapid.SampledFrom([]string{"/dns-query", "", "/q"}).Draw(t, "path")
+	}
+	if c.HostKind == "name" && c.DialAddr == "" && rapid.Bool().Draw(t, "bootstrap") {
+		c.Bootstrap = true
+		c.OmitPort = rapid.IntRange(0, 3).Draw(t, "bsOmit") == 0
+		c.Sink = rapid.IntRange(0, 2).Draw(t, "bsHost") // an IPv4 loopback address the bootstrap server answers with
 	}
 	return c
 }
@@ -306,7 +362,7 @@ func runCase(c Case, ctx *hx.Ctx) *hx.Failure {
 	} else {
 		wantPorts[def] = true
 	}
-	udpBased := c.Sink >= 0
+	udpBased := c.Sink >= 0 && !c.Bootstrap
 	var sk *sink
 	if udpBased {
 		port := 0
@@ -347,6 +403,49 @@ func runCase(c Case, ctx *hx.Ctx) *hx.Failure {
 		urlHost = canonHost(c.Host)
 		wantHost = canonHost(sk.host)
 	}
+	var bsListener net.Listener
+	bsAccepted := make(chan struct{}, 4)
+	if c.Bootstrap {
+		ba := bootAddr()
+		if ba == "" {
+			ctx.Class("skipped:no-bootstrap-server")
+			return nil
+		}
+		ip := loopHosts[c.Sink%3]
+		port := 0
+		if c.OmitPort {
+			port = def
+		}
+		l, err := net.Listen("tcp", net.JoinHostPort(ip, strconv.Itoa(port)))
+		if err != nil {
+			ctx.Class("skipped:cannot-bind-listener")
+			return nil
+		}
+		bsListener = l
+		defer l.Close()
+		go func() {
+			for {
+				cn, err := l.Accept()
+				if err != nil {
+					return
+				}
+				bsAccepted <- struct{}{}
+				cn.Close()
+			}
+		}()
+		lp := l.Addr().(*net.TCPAddr).Port
+		// a unique hostname per case, resolved by the bootstrap server to the listener's address
+		c.Host = fmt.Sprintf("bs%d-%d.c18.test", lp, time.Now().UnixNano()%1000000)
+		bootMu.Lock()
+		bootMap[strings.ToLower(c.Host)+"."] = net.ParseIP(ip)
+		bootMu.Unlock()
+		if c.OmitPort {
+			c.Port = 0
+		} else {
+			c.Port = lp
+		}
+		urlHost = c.Host
+	}
 	socks, err := newSocks()
 	if err != nil {
 		return hx.Failf("C18/harness", "socks: %v", err)
@@ -355,8 +454,11 @@ func runCase(c Case, ctx *hx.Ctx) *hx.Failure {
 	var verifiedName string
 	var vmu sync.Mutex
 	opt := upstream.Opt{DialAddr: c.DialAddr}
-	if !udpBased {
+	if !udpBased && !c.Bootstrap {
 		opt.Socks5 = socks.l.Addr().String()
+	}
+	if c.Bootstrap {
+		opt.Bootstrap = bootAddr()
 	}
 	opt.TLSConfig = &tls.Config{InsecureSkipVerify: true, VerifyConnection: func(cs tls.ConnectionState) error {
 		vmu.Lock()
@@ -387,7 +489,14 @@ func runCase(c Case, ctx *hx.Ctx) *hx.Failure {
 	}()
 	defer func() { cancel(); <-done }()
 
-	if udpBased {
+	if c.Bootstrap {
+		select {
+		case <-bsAccepted:
+		case <-time.After(3 * time.Second):
+			return hx.Failf("C18/wrong-destination", "NewUpstream(%q, bootstrap=%s): the name resolves to %s, but no connection reached the configured destination %s within 3 s", addr, opt.Bootstrap, loopHosts[c.Sink%3], bsListener.Addr())
+		}
+		ctx.Class("bootstrap")
+	} else if udpBased {
 		// a datagram must arrive at the sink bound for this case
 		select {
 		case <-sk.got:
